@@ -1,5 +1,6 @@
 import SoxrModel.Vr.Lemmas
 import SoxrModel.Vr.Frames
+import SoxrModel.Vr.Fade
 import Mathlib.Tactic.Ring
 /-!
 # C16 — the variable-rate engine follows the requested ratio
@@ -12,6 +13,13 @@ floating-point expressions — except where a hypothesis is written out.
 What is *not* here: the 80 dB residual and "no discontinuity in the output" are statements about sample values
 (floating-point kernels); they are measured by the falsifier of `checks/c16.py`.  Statements still open are the
 `Goal_…` definitions at the end.
+
+History.  The model follows /repo: since the `fix:` commits for F13 (`vr_set_io_ratio(r, 0)` cancels a slew in
+progress) and F14 (`lshift` shifts the unsigned representation) the theorems of §3 hold for *every* state — the
+hypothesis "no unfinished slew" of the pinned tree is gone; the pre-repair function and the two witnesses of its
+failure are kept in §3b as a historical record.  F35 (the two cross-faded streams can get out of step: the C assertion
+`odone == odone2` fails) is a defect of the current tree: §7 proves the negation of the alignment statement with a
+concrete witness, which the check replays on the real code.
 
 Units: `step` counts `2⁻³²` samples of the current stage per (2x-rate) output; `rateIn` (`Vr/Arith.lean`) is the same
 quantity in the stage-independent unit `2⁻³³` input frames per output frame.
@@ -171,26 +179,16 @@ theorem immediate_when_zero (cfg : Cfg ρ) (s : St ρ) (r : ρ) :
     (setIoRatio cfg s r 0).defR = none :=
   ⟨(setIoRatio_zero_spec cfg s r).2.1, (setIoRatio_zero_spec cfg s r).1⟩
 
-/-- … and, **provided no slew is running and no snap is pending** (the hypothesis the proof forces; without it the
-    statement is false for the pinned code: `stays_at_target_fails_*` below, F13), nothing is left outstanding. -/
-theorem immediate_quiescent (cfg : Cfg ρ) (s : St ρ) (r : ρ)
-    (h : s.slew = 0 ∧ s.newR = none ∧ s.cur.ss = 0) : Quiescent (setIoRatio cfg s r 0) := by
-  obtain ⟨h1, _, _, _, h5, h6⟩ := setIoRatio_zero_spec cfg s r
-  cases hf : cfg.fixF13 with
-  | false =>
-    obtain ⟨a, b, c⟩ := h5 hf
-    exact ⟨h1, by simp only [St.v]; rw [a, h.1], by simp only [St.v]; rw [b, h.2.1], by simp only [St.v]; rw [c, h.2.2]⟩
-  | true =>
-    obtain ⟨a, b, c, _⟩ := h6 hf
-    exact ⟨h1, a, b, c⟩
-
-/-- With the candidate repair (`work/vr/fix-F13.diff`: the else-branch clears `slew_len`, `step_step`,
-    `new_io_ratio`) the hypothesis is not needed. -/
-theorem immediate_quiescent_fixed (cfg : Cfg ρ) (hf : cfg.fixF13 = true) (s : St ρ) (r : ρ) :
-    Quiescent (setIoRatio cfg s r 0) := by
-  obtain ⟨h1, _, _, _, _, h6⟩ := setIoRatio_zero_spec cfg s r
-  obtain ⟨a, b, c, _⟩ := h6 hf
+/-- … and **nothing is left outstanding, whatever was going on before**: a slew in progress or a pending snap is
+    cancelled (`slew_len = 0`, `new_io_ratio = 0`, `step_step = 0` for both streams).  No hypothesis on `s`.
+    (On the pinned tree this needed "no slew is running and no snap is pending": F13, repaired; §3b.) -/
+theorem immediate_quiescent (cfg : Cfg ρ) (s : St ρ) (r : ρ) : Quiescent (setIoRatio cfg s r 0) := by
+  obtain ⟨h1, _, _, _, a, b, c, _⟩ := setIoRatio_zero_spec cfg s r
   exact ⟨h1, a, b, c⟩
+
+/-- the fade-out stream's slew increment is cancelled too -/
+theorem immediate_cancels_fadeout_slew (cfg : Cfg ρ) (s : St ρ) (r : ρ) : (setIoRatio cfg s r 0).fo.ss = 0 :=
+  (setIoRatio_zero_spec cfg s r).2.2.2.2.2.2.2
 
 /-- **Stays at the target.**  With no request outstanding, no sequence of calls (without a new request) changes
     anything: no slew starts by itself, and as long as no stage switch happens `step` does not move at all.
@@ -202,66 +200,177 @@ theorem stays_at_target (cfg : Cfg ρ) (s : St ρ) (ops : List (Op ρ)) (h : Qui
       (run cfg { st := s } ops).st.cur.sn = s.cur.sn) :=
   QuiescentV_run cfg ops { st := s } hops h
 
-/-- The two together: an immediate request made while nothing is outstanding puts `step` on the target and every
-    later call leaves it there. -/
-theorem immediate_then_stays (cfg : Cfg ρ) (s : St ρ) (r : ρ) (ops : List (Op ρ)) (hd : s.defR = none)
-    (h : s.slew = 0 ∧ s.newR = none ∧ s.cur.ss = 0) (hops : NoRatio ops)
-    (hsw : (run cfg { st := setIoRatio cfg s r 0 } ops).nsw = 0) :
-    (run cfg { st := setIoRatio cfg s r 0 } ops).st.cur.step = cfg.num.stepOf r s.cur.mult := by
-  obtain ⟨_, h2, _, h4, _⟩ := setIoRatio_zero_spec cfg s r
-  obtain ⟨_, hs⟩ := stays_at_target cfg (setIoRatio cfg s r 0) ops (immediate_quiescent cfg s r h) hops
-  rw [(hs hsw).1, h2, (h4 hd).1]
+/-- **At once, and then stays at `r`** — for every state `s` (a slew may be running, a snap pending, a fade in progress,
+    the very first request included), every `r`, every later sequence of calls without a new request: the engine is
+    quiescent, and as long as no stage switch happens `step` is exactly the target.  No hypothesis on the history. -/
+theorem immediate_then_stays (cfg : Cfg ρ) (s : St ρ) (r : ρ) (ops : List (Op ρ)) (hops : NoRatio ops) :
+    Quiescent (run cfg { st := setIoRatio cfg s r 0 } ops).st ∧
+    ((run cfg { st := setIoRatio cfg s r 0 } ops).nsw = 0 →
+      (run cfg { st := setIoRatio cfg s r 0 } ops).st.cur.step = cfg.num.stepOf r (setIoRatio cfg s r 0).cur.mult ∧
+      (run cfg { st := setIoRatio cfg s r 0 } ops).st.cur.mult = (setIoRatio cfg s r 0).cur.mult) := by
+  obtain ⟨hq, hs⟩ := stays_at_target cfg (setIoRatio cfg s r 0) ops (immediate_quiescent cfg s r) hops
+  refine ⟨hq, fun hsw => ?_⟩
+  obtain ⟨e1, e2, _⟩ := hs hsw
+  exact ⟨by rw [e1]; exact (immediate_when_zero cfg s r).1, e2⟩
 
-/-! ### F13: the pinned code violates "then stays at r" when the immediate request arrives during a slew
+/-- **Every request settles** (the clause "moves to `r` over `slew_len` output frames — at once if `slew_len` is 0 — and
+    then stays at `r`", for all histories).  From *any* state in which the first ratio has been set — whatever slew,
+    snap or fade is in progress — a request `(r, L)` followed by any calls without a new request, without a stage
+    switch (`nsw = 0`) and with the cross-faded streams in step (`nmis = 0`) that deliver more than `L` frames leaves
+    nothing outstanding, with `step` equal to the target exactly; the one exception is the request whose increment
+    rounds to zero (`L > 0`, target within `L/2` units of `2⁻³²`), which is dropped and leaves `step` where it was,
+    within `L/2` units of the target. -/
+theorem request_settles (cfg : Cfg ρ) (s : St ρ) (r : ρ) (L : Nat) (ops : List (Op ρ)) (hd : s.defR = none)
+    (hops : NoRatio ops) (hsw : (run cfg { st := setIoRatio cfg s r L } ops).nsw = 0)
+    (hmis : (run cfg { st := setIoRatio cfg s r L } ops).nmis = 0)
+    (hout : L < (run cfg { st := setIoRatio cfg s r L } ops).out) :
+    let T := cfg.num.stepOf r s.cur.mult
+    let R := run cfg { st := setIoRatio cfg s r L } ops
+    Quiescent R.st ∧ R.st.cur.mult = s.cur.mult ∧
+    ((L = 0 ∨ slewInc T s.cur.step L ≠ 0) → R.st.cur.step = T) ∧
+    ((0 < L ∧ slewInc T s.cur.step L = 0) →
+      R.st.cur.step = s.cur.step ∧ 2 * (T - R.st.cur.step) ≤ L ∧ 2 * (R.st.cur.step - T) ≤ L) := by
+  intro T R
+  by_cases hL : L = 0
+  · subst hL
+    obtain ⟨hq, hs⟩ := immediate_then_stays cfg s r ops hops
+    obtain ⟨e1, e2⟩ := hs hsw
+    have hm : (setIoRatio cfg s r 0).cur.mult = s.cur.mult := ((setIoRatio_zero_spec cfg s r).2.2.2.1 hd).1
+    refine ⟨hq, by show (run _ _ _).st.cur.mult = _; rw [e2, hm], fun _ => ?_, fun h => absurd h.1 (by omega)⟩
+    show (run _ _ _).st.cur.step = _
+    rw [e1, hm]
+  · have hLp : 0 < L := by omega
+    by_cases h0 : slewInc (cfg.num.stepOf r s.cur.mult) s.cur.step L = 0
+    · obtain ⟨hq, hstep, b1, b2⟩ := slew_request_dropped cfg s r L hLp hd h0
+      obtain ⟨hq', hs⟩ := stays_at_target cfg (setIoRatio cfg s r L) ops hq hops
+      obtain ⟨e1, e2, _⟩ := hs hsw
+      have hm : (setIoRatio cfg s r L).cur.mult = s.cur.mult := (setIoRatio_slew_spec cfg s r L hL).2.2.1
+      refine ⟨hq', by show (run _ _ _).st.cur.mult = _; rw [e2, hm], fun h => ?_, fun _ => ?_⟩
+      · rcases h with h | h
+        · exact absurd h hL
+        · exact absurd h0 h
+      · have e : (run cfg { st := setIoRatio cfg s r L } ops).st.cur.step = s.cur.step := by rw [e1, hstep]
+        show (run _ _ _).st.cur.step = _ ∧ 2 * (T - (run _ _ _).st.cur.step) ≤ _ ∧ 2 * ((run _ _ _).st.cur.step - T) ≤ _
+        rw [e]
+        exact ⟨rfl, b1, b2⟩
+    · have hreq := slew_request cfg s r L hLp hd h0
+      have hprog := slew_progression cfg _ (setIoRatio cfg s r L) 0 ops hreq hops hsw hmis
+      rw [Nat.zero_add] at hprog
+      obtain ⟨hstep, hq⟩ := snap_exact cfg _ _ _ hprog hout
+      obtain ⟨_, hm, _⟩ := hprog
+      simp only [St.v] at hm
+      refine ⟨hq, hm, fun _ => ?_, fun h => absurd h.2 h0⟩
+      show (run _ _ _).st.cur.step = _
+      rw [hstep, hm]
 
-Exact evaluation `Num.exact` on bit patterns; the same call sequences are replayed on the real engine by the check
-(`checks/c16.py`, `witness` stage) and give the same `step`. -/
+/-! ## 3b. Historical record: F13 on the tree before its `fix:` commit
+
+Until the repair the immediate branch of `vr_set_io_ratio` did not touch `slew_len`, `step_step`, `new_io_ratio`.
+`Historical.setIoRatioPre` is that function; `runPre` runs a call sequence with it (the rest of the engine is
+unchanged — `vr_process` applies the creation-time ratio through the same function, but on a fresh engine the three
+fields are zero, so clearing them changes nothing).  The two theorems below were the negation of "then stays at `r`"
+on the pinned tree (replayed on the real code as witnessA / witnessB / e20, finding F13); `witnesses_repaired` is the
+same two call sequences on the model of the current code, which the check replays on the current code on every run. -/
 
 def b8 : Nat := 0x4020000000000000      -- 8.0
+def b6 : Nat := 0x4018000000000000      -- 6.0
 def b4 : Nat := 0x4010000000000000      -- 4.0
 def b3 : Nat := 0x4008000000000000      -- 3.0
 def b2 : Nat := 0x4000000000000000      -- 2.0
 def b1 : Nat := 0x3FF0000000000000      -- 1.0
+def b025 : Nat := 0x3FD0000000000000    -- 0.25
 def b39 : Nat := 0x400F333333333333     -- 3.9 (nearest double)
 
-def wcfg (fix : Bool) : Cfg Nat := { num := Num.exact, fixF13 := fix }
+def wcfg : Cfg Nat := { num := Num.exact }
+
+namespace Historical
+
+/-- `vr_set_io_ratio` as it was before the repair of F13: the immediate branch leaves `slew_len`, `new_io_ratio` and
+    the `step_step`s alone. -/
+def setIoRatioPre (cfg : Cfg ρ) (s : St ρ) (r : ρ) (slew : Nat) : St ρ :=
+  if slew ≠ 0 then setIoRatio cfg s r slew
+  else
+    let first := s.defR.isSome
+    let s1 :=
+      if first then
+        let oct := cfg.num.octave r
+        let sn : Int := if oct < 0 then -1 else min oct ((s.ns0 : Int) - 1)
+        enter { s with cur := { s.cur with sn := sn } } 0
+      else if s.fade ≠ 0 then { s with fo := setStep cfg s.fo r }
+      else s
+    let c := setStep cfg s1.cur r
+    let c := if first then { c with clk := INT c.clk * two32 + FRAC c.step / 2 } else c
+    { s1 with cur := c, defR := none }
+
+def stepOpPre (cfg : Cfg ρ) (r : Run ρ) : Op ρ → Run ρ
+  | .ratio x slew => { r with st := setIoRatioPre cfg r.st x slew }
+  | o => stepOp cfg r o
+
+def runPre (cfg : Cfg ρ) (r : Run ρ) (ops : List (Op ρ)) : Run ρ := ops.foldl (stepOpPre cfg) r
+
+/-- the repair is exactly "clear the four fields first" -/
+theorem setIoRatio_eq_pre_after_clear (cfg : Cfg ρ) (s : St ρ) (r : ρ) :
+    setIoRatio cfg s r 0 =
+      setIoRatioPre cfg { s with slew := 0, newR := none, cur := { s.cur with ss := 0 }, fo := { s.fo with ss := 0 } } r 0 := by
+  simp [setIoRatio, setIoRatioPre]
+
+/-- … so when nothing is outstanding (and the fade-out increment is zero) the two functions agree -/
+theorem setIoRatio_eq_pre_of_quiescent (cfg : Cfg ρ) (s : St ρ) (r : ρ) (L : Nat)
+    (h : s.slew = 0 ∧ s.newR = none ∧ s.cur.ss = 0 ∧ s.fo.ss = 0) : setIoRatio cfg s r L = setIoRatioPre cfg s r L := by
+  by_cases hL : L = 0
+  · subst hL
+    rw [setIoRatio_eq_pre_after_clear]
+    obtain ⟨h1, h2, h3, h4⟩ := h
+    have : ({ s with slew := 0, newR := none, cur := { s.cur with ss := 0 }, fo := { s.fo with ss := 0 } } : St ρ) = s := by
+      cases s with
+      | mk ns0 ns fl fade slew xfade inc sw newR defR oocc stages cur fo =>
+        cases cur; cases fo
+        simp_all
+    rw [this]
+  · simp [setIoRatioPre, hL]
 
 /-- e20.c scaled down: at ratio 4, slew to 1.0 over 500 frames; 50 frames into it, `soxr_set_io_ratio(3.9, 0)`. -/
-def witnessA (fix : Bool) : Run Nat :=
-  run (wcfg fix) { st := init (wcfg fix) b8 }
-    ([.ratio b4 0] ++ List.replicate 10 (.proc 400 50) ++ [.ratio b1 500] ++ [.proc 400 50] ++
-     [.ratio b39 0] ++ List.replicate 14 (.proc 400 50))
+def opsA : List (Op Nat) :=
+  [.ratio b4 0] ++ List.replicate 10 (.proc 400 50) ++ [.ratio b1 500] ++ [.proc 400 50] ++
+    [.ratio b39 0] ++ List.replicate 14 (.proc 400 50)
 
 /-- the slew has just delivered its last frame when the immediate request arrives (snap pending) -/
-def witnessB (fix : Bool) : Run Nat :=
-  run (wcfg fix) { st := init (wcfg fix) b8 }
-    ([.ratio b4 0] ++ List.replicate 10 (.proc 400 50) ++ [.ratio b2 100] ++ [.proc 400 50, .proc 400 50] ++
-     [.ratio b3 0] ++ [.proc 400 50, .proc 400 50])
+def opsB : List (Op Nat) :=
+  [.ratio b4 0] ++ List.replicate 10 (.proc 400 50) ++ [.ratio b2 100] ++ [.proc 400 50, .proc 400 50] ++
+    [.ratio b3 0] ++ [.proc 400 50, .proc 400 50]
+
+def witnessAPre : Run Nat := runPre wcfg { st := init wcfg b8 } opsA
+def witnessBPre : Run Nat := runPre wcfg { st := init wcfg b8 } opsB
+def witnessA : Run Nat := run wcfg { st := init wcfg b8 } opsA
+def witnessB : Run Nat := run wcfg { st := init wcfg b8 } opsB
 
 set_option maxRecDepth 100000 in
-/-- **Negation of `stays_at_target` without its hypothesis (F13).**  The last request was `(3.9, 0)`; 700 frames
-    later nothing is outstanding, yet `step` is the target of the *abandoned* slew (1.0), not 3.9. -/
-theorem stays_at_target_fails_during_slew :
-    (witnessA false).st.slew = 0 ∧ (witnessA false).st.newR = none ∧ (witnessA false).nneg = 0 ∧
-    (witnessA false).st.cur.step = exactStepOf b1 (witnessA false).st.cur.mult ∧
-    (witnessA false).st.cur.step ≠ exactStepOf b39 (witnessA false).st.cur.mult := by
+/-- **F13 (historical; the pre-repair function).**  The last request was `(3.9, 0)`; 700 frames later nothing is
+    outstanding, yet `step` is the target of the *abandoned* slew (1.0), not 3.9. -/
+theorem pre_fix_stays_at_target_fails_during_slew :
+    witnessAPre.st.slew = 0 ∧ witnessAPre.st.newR = none ∧ witnessAPre.nneg = 0 ∧
+    witnessAPre.st.cur.step = exactStepOf b1 witnessAPre.st.cur.mult ∧
+    witnessAPre.st.cur.step ≠ exactStepOf b39 witnessAPre.st.cur.mult := by
   decide +kernel
 
 set_option maxRecDepth 100000 in
 /-- Same defect, other window: the request arrives after the last frame of a slew but before the next chunk has
-    snapped; the next `vr_process` then overwrites 3.0 with the old target 2.0. -/
-theorem stays_at_target_fails_snap_pending :
-    (witnessB false).st.slew = 0 ∧ (witnessB false).st.newR = none ∧
-    (witnessB false).st.cur.step = exactStepOf b2 (witnessB false).st.cur.mult ∧
-    (witnessB false).st.cur.step ≠ exactStepOf b3 (witnessB false).st.cur.mult := by
+    snapped; the next `vr_process` then overwrote 3.0 with the old target 2.0. -/
+theorem pre_fix_stays_at_target_fails_snap_pending :
+    witnessBPre.st.slew = 0 ∧ witnessBPre.st.newR = none ∧
+    witnessBPre.st.cur.step = exactStepOf b2 witnessBPre.st.cur.mult ∧
+    witnessBPre.st.cur.step ≠ exactStepOf b3 witnessBPre.st.cur.mult := by
   decide +kernel
 
 set_option maxRecDepth 100000 in
-/-- The candidate repair removes both. -/
+/-- The same call sequences on the model of the current code end at the last requested ratio (instances of
+    `immediate_then_stays`; computed here so that the check can replay exactly these numbers on the real code). -/
 theorem witnesses_repaired :
-    (witnessA true).st.cur.step = exactStepOf b39 (witnessA true).st.cur.mult ∧
-    (witnessB true).st.cur.step = exactStepOf b3 (witnessB true).st.cur.mult := by
+    witnessA.st.cur.step = exactStepOf b39 witnessA.st.cur.mult ∧ witnessA.st.slew = 0 ∧ witnessA.st.newR = none ∧
+    witnessB.st.cur.step = exactStepOf b3 witnessB.st.cur.mult ∧ witnessB.st.slew = 0 ∧ witnessB.st.newR = none := by
   decide +kernel
+
+end Historical
 
 /-! ## 4. Stage switch: one power of two, time continuous -/
 
@@ -278,6 +387,29 @@ theorem stage_switch_rescale (s : St ρ) (dif occ0 : Int) :
     (switchStage s dif occ0).fade = fadeLen := by
   obtain ⟨h1, h2, _, _, _, h6, h7, _, h9, _, _, h12, h13, h14⟩ := switchStage_spec s dif occ0
   exact ⟨h6, h9, h12, h13, h14, h1, h2, h7⟩
+
+/-- **The shifts of the repaired code are the model's (F14).**  `vr_process` rescales with the macro
+    `lshift(x,by) = by > 0 ? (int64_t)((uint64_t)x << by) : x >> -by` (`lshiftC`); the model's `lshift` multiplies /
+    floor-divides unbounded integers.  They agree for every value — negative ones included: the `step_step` of a downward
+    slew at a switch to the finer stage, which the pinned tree shifted left as a signed value (undefined behaviour) —
+    whenever the left-shifted value still fits 64 bits.  So the three fields after a stage switch are what the C code
+    computes. -/
+theorem stage_switch_shifts_as_repaired_code (s : St ρ) (dif occ0 : Int)
+    (hfit : ∀ x ∈ [s.cur.clk, s.cur.step, s.cur.ss], ∀ k ∈ [-dif, switchShift s dif],
+      k > 0 → -2 ^ 63 ≤ x * 2 ^ k.toNat ∧ x * 2 ^ k.toNat < 2 ^ 63) :
+    (switchStage s dif occ0).cur.clk = lshiftC s.cur.clk (-dif) ∧
+    (switchStage s dif occ0).cur.step = lshiftC s.cur.step (switchShift s dif) ∧
+    (switchStage s dif occ0).cur.ss = lshiftC s.cur.ss (switchShift s dif) := by
+  obtain ⟨_, _, h3, h4, h5, _⟩ := stage_switch_rescale s dif occ0
+  rw [h3, h4, h5]
+  refine ⟨(lshiftC_eq_lshift _ _ ?_).symm, (lshiftC_eq_lshift _ _ ?_).symm, (lshiftC_eq_lshift _ _ ?_).symm⟩
+  · exact hfit _ (by simp) _ (by simp)
+  · exact hfit _ (by simp) _ (by simp)
+  · exact hfit _ (by simp) _ (by simp)
+
+/-- a negative `step_step` shifted left by one, as at every downward octave crossing: `-3221225 → -6442450` -/
+example : lshiftC (-3221225) 1 = lshift (-3221225) 1 ∧ lshift (-3221225) 1 = -6442450 ∧
+    (-2 ^ 63 ≤ (-3221225 : Int) * 2 ^ 1 ∧ (-3221225 : Int) * 2 ^ 1 < 2 ^ 63) := by decide
 
 /-- **Time continuity, switching down** (to the stage with twice the rate; only taken from a down-sampling stream):
     read position, ratio and slew rate in input time are *exactly* unchanged. -/
@@ -445,18 +577,18 @@ theorem set_io_ratio_error_changes_nothing (n : ApiNum ρ) (p : Option (ApiSt ρ
 
 /-- a state in mid-slew: ratio 4, then 50 frames into a slew to 1.0 over 500 frames -/
 def midSlew : St Nat :=
-  (run (wcfg false) { st := init (wcfg false) b8 }
+  (run wcfg { st := init wcfg b8 }
     ([.ratio b4 0] ++ List.replicate 10 (.proc 400 50) ++ [.ratio b1 500] ++ [.proc 400 50])).st
 
 /-- at ratio 4 with nothing outstanding -/
 def steady : St Nat :=
-  (run (wcfg false) { st := init (wcfg false) b8 } ([.ratio b4 0] ++ List.replicate 10 (.proc 400 50))).st
+  (run wcfg { st := init wcfg b8 } ([.ratio b4 0] ++ List.replicate 10 (.proc 400 50))).st
 
 set_option maxRecDepth 100000 in
 /-- `slew_request`'s hypotheses hold at `steady` (non-zero increment), and `Slewing` is then satisfied 50 frames on
     — with a negative increment, `slew_len = 450`. -/
 example :
-    steady.defR = none ∧ slewInc ((wcfg false).num.stepOf b1 steady.cur.mult) steady.cur.step 500 = -3221225 ∧
+    steady.defR = none ∧ slewInc (wcfg.num.stepOf b1 steady.cur.mult) steady.cur.step 500 = -3221225 ∧
     midSlew.slew = 450 ∧ midSlew.newR = some b1 ∧ midSlew.cur.ss = -3221225 ∧
     midSlew.cur.step = steady.cur.step + 50 * -3221225 := by
   decide +kernel
@@ -468,13 +600,26 @@ example : steady.defR = none ∧ steady.slew = 0 ∧ steady.newR = none ∧ stea
   decide +kernel
 
 /-- a stage switch happens in the witness runs (so the `nsw = 0` hypotheses are real restrictions) … -/
-example : (witnessA false).nsw = 2 := by
+example : Historical.witnessA.nsw ≠ 0 := by
   set_option maxRecDepth 100000 in decide +kernel
 
 set_option maxRecDepth 100000 in
+/-- `immediate_quiescent` / `immediate_then_stays` / `request_settles` at a state that is *not* quiescent: in mid-slew
+    (`slew_len = 450`, increment −3221225, target 1.0 pending) an immediate request for 6.0 leaves nothing outstanding,
+    and 200 frames later (no stage switch) `step` is 6.0 in the units of stage 2 -/
+example : midSlew.slew = 450 ∧ midSlew.newR = some b1 ∧ midSlew.defR = none ∧
+    (setIoRatio wcfg midSlew b6 0).slew = 0 ∧ (setIoRatio wcfg midSlew b6 0).cur.ss = 0 ∧
+    (run wcfg { st := setIoRatio wcfg midSlew b6 0 } (List.replicate 4 (.proc 400 50))).nsw = 0 ∧
+    (run wcfg { st := setIoRatio wcfg midSlew b6 0 } (List.replicate 4 (.proc 400 50))).nmis = 0 ∧
+    (run wcfg { st := setIoRatio wcfg midSlew b6 0 } (List.replicate 4 (.proc 400 50))).out = 200 ∧
+    (run wcfg { st := setIoRatio wcfg midSlew b6 0 } (List.replicate 4 (.proc 400 50))).st.cur.step =
+      exactStepOf b6 midSlew.cur.mult := by
+  decide +kernel
+
+set_option maxRecDepth 100000 in
 /-- … and there are non-trivial runs without one: 450 frames at ratio 4 -/
-example : (run (wcfg false) { st := steady } (List.replicate 9 (.proc 400 50))).nsw = 0 ∧
-    (run (wcfg false) { st := steady } (List.replicate 9 (.proc 400 50))).out = 450 := by
+example : (run wcfg { st := steady } (List.replicate 9 (.proc 400 50))).nsw = 0 ∧
+    (run wcfg { st := steady } (List.replicate 9 (.proc 400 50))).out = 450 := by
   decide +kernel
 
 /-- the hypotheses of `stage_switch_down_continuous` / `_up_continuous`: a stage-1 down-sampling stream -/
@@ -505,6 +650,76 @@ example : Gen.fadeLen = 2 * xfadeLen ∧ Gen.fadeLen % 2 = 0 := by decide
 /-- `Num.exact` is `⌊r·step_mult + ½⌋`: e.g. 3.9 in stage 1 -/
 example : exactStepOf b39 1073741824 = 4187593114 ∧ exactOctave b39 = 1 ∧ exactNumStages b8 = 3 := by decide
 
+/-! ## 7. Fade alignment: the C assertion `odone == odone2` — false in general (F35)
+
+During the cross-fade of a stage switch both streams must deliver the same number of samples per chunk
+(`assert(odone == odone2)`, compiled out with NDEBUG); the model counts the chunks in which they do not (`nmis`).
+The statement "`nmis = 0` for every run from a fresh engine" (the former `Goal_fade_alignment`) is **false**: `len` of both
+streams derives from `occupancy0`, computed once per `vr_process` from the coarsest stage in use *at the start of the
+call*; when one call takes an up-switch to a new coarsest stage, completes its 512-frame fade and then takes a
+down-switch, the new (finer) current stream gets `len = occupancy0 >> sn` while the (coarser) fade-out stream keeps the
+floored `occupancy0 >> (sn+1)`; the finer stream, run first, then delivers pairs the coarser one has no input for.  From
+there the two streams are one sample apart for the rest of the fade and the fade-out clock goes negative.
+`Vr/Fade.lean` proves the alignment where it does hold (`fade_alignment_down_partial`). -/
+
+/-- max ratio 8; start at 0.25 (up-sampling stage), jump to 6 at once (the engine climbs one octave stage per 512-frame
+    fade), 100 frames later slew to 1.0 over 800 frames, then one call of 1400 frames. -/
+def opsF35 : List (Op Nat) :=
+  [.ratio b025 0, .proc 800 100, .ratio b6 0, .proc 800 100, .ratio b1 800, .proc 2500 1400]
+
+def witnessF35 : Run Nat := run wcfg { st := init wcfg b8 } opsF35
+
+set_option maxRecDepth 100000 in
+/-- **Negation of fade alignment (F35), concrete.**  In the last call (three stage switches: up, up, down) one chunk
+    has `odone ≠ odone2`; afterwards the fade-out stream's clock is negative.  No request is outstanding before that
+    call except the slew it was asked for; every call before it is aligned. -/
+theorem fade_alignment_fails :
+    witnessF35.nmis = 1 ∧ witnessF35.nsw = 3 ∧ witnessF35.st.fo.clk < 0 ∧ witnessF35.st.fade ≠ 0 ∧
+    (run wcfg { st := init wcfg b8 } opsF35.dropLast).nmis = 0 ∧
+    (run wcfg { st := init wcfg b8 } opsF35.dropLast).nneg = 0 := by
+  decide +kernel
+
+/-- the universally quantified statement (formerly `Goal_fade_alignment`) is false -/
+theorem not_fade_alignment_for_all_runs :
+    ¬ ∀ (mx : Nat) (ops : List (Op Nat)), (run wcfg { st := init wcfg mx } ops).nmis = 0 := by
+  intro h
+  have h1 := h b8 opsF35
+  have h2 : witnessF35.nmis = 1 := fade_alignment_fails.1
+  unfold witnessF35 at h2
+  omega
+
+/-- **Fade alignment, the part that holds** (down-switch fades).  A switch to the next finer stage from a
+    down-sampling stage `sn ≥ 1` whose `len` came from an `occupancy0` that is a whole number of its samples makes the
+    new current stream the old one exactly doubled (clock, `step`, `step_step`, `len`); in a chunk of such a fade both
+    streams deliver the same number of samples (`odone == odone2`: no mismatch counted) and remain exactly doubled — so
+    by induction the assertion holds in every chunk of the fade until something re-rounds one stream (the snap, a new
+    request) or recomputes `len` from a misaligned `occupancy0`.  What is missing for all runs: (1) `2^sn ∣ occupancy0`
+    fails after an up-switch earlier in the same call — F35, `fade_alignment_fails`; (2) up-switch fades and fades
+    with the up-sampling stage −1, where the rescaling floors and the streams are equal only to within one unit of
+    `2⁻³²`; (3) the snap and requests during a fade, which round each stream's `step` separately. -/
+theorem fade_alignment_down_partial (s : St ρ) (occ0 olen mn mx : Int) (hsn : 1 ≤ s.cur.sn) (hd : s.cur.isD = true)
+    (hlen : s.cur.len = shiftr occ0 s.cur.sn) (hdiv : occ0 % 2 ^ s.cur.sn.toNat = 0) :
+    Doubled (switchStage s (-1) occ0).cur (switchStage s (-1) occ0).fo ∧
+    (kernels (switchStage s (-1) occ0) olen mn mx).mis = false ∧
+    Doubled (kernels (switchStage s (-1) occ0) olen mn mx).st.cur (kernels (switchStage s (-1) occ0) olen mn mx).st.fo := by
+  obtain ⟨h1, h2, h3, h4⟩ := switch_down_doubled s occ0 hsn hd hlen hdiv
+  obtain ⟨k1, k2⟩ := kernels_doubled (switchStage s (-1) occ0) olen mn mx h4 h2 h3 h1
+  exact ⟨h1, k1, k2⟩
+
+/-- the inductive step on its own: any chunk of a fade between two exactly doubled down-sampling streams -/
+theorem fade_alignment_chunk_partial (s : St ρ) (olen mn mx : Int) (hfade : s.fade ≠ 0) (hc : s.cur.isD = true)
+    (hf : s.fo.isD = true) (h : Doubled s.cur s.fo) :
+    (kernels s olen mn mx).mis = false ∧ Doubled (kernels s olen mn mx).st.cur (kernels s olen mn mx).st.fo :=
+  kernels_doubled s olen mn mx hfade hc hf h
+
+/-- hypotheses of `fade_alignment_down_partial`: a stage-1 stream, `occupancy0 = 1246` input frames is *not* a
+    whole number of stage-1 samples … no: `1246 = 2·623` is; of stage-2 samples it is not (`1246 % 4 = 2`) — the F35
+    situation; with `occupancy0 = 1248` both hold and the pair is doubled, `len` 312 / 624 -/
+example : ∃ s : St Nat, 1 ≤ s.cur.sn ∧ s.cur.isD = true ∧ s.cur.len = shiftr 1248 s.cur.sn ∧
+    (1248 : Int) % 2 ^ s.cur.sn.toNat = 0 ∧ (switchStage s (-1) 1248).cur.len = 624 ∧ (1246 : Int) % 2 ^ s.cur.sn.toNat ≠ 0 :=
+  ⟨{ cur := { clk := 12345678901, step := 1000000000, ss := -7, sn := 2, isD := true, len := 312 },
+     stages := #[{}, {}, {}, {}] }, by decide⟩
+
 /-! ## Open statements (not proved; decided on sampled inputs by the falsifier of `checks/c16.py`) -/
 
 /-- The whole skeleton, not only the clock: a fresh engine at a constant ratio `r ≤ max`, fed `N` frames in any
@@ -512,7 +727,7 @@ example : exactStepOf b39 1073741824 = 4187593114 ∧ exactOctave b39 = 1 ∧ ex
     invariants of the half-band chain and of the flush preloads.) -/
 def Goal_frames_full_engine : Prop :=
   ∀ (mx r : Nat) (blocks : List (Nat × Nat)) (drain : List Nat),
-    let cfg := wcfg pinnedFixF13
+    let cfg := wcfg
     let feed : List (Op Nat) := blocks.map fun b => .proc b.1 b.2
     let fl : List (Op Nat) := drain.map fun o => .flush o
     let R := run cfg { st := init cfg mx } ([.ratio r 0] ++ feed ++ fl)
@@ -525,9 +740,11 @@ def Goal_frames_full_engine : Prop :=
     ∃ (p q : Int), 0 < q ∧ exactStepOf r (2 ^ 52) * q = p * 2 ^ 52 ∧
       (R.out : Int) * p - N * q ≤ 2 * p ∧ N * q - (R.out : Int) * p ≤ 2 * p
 
-/-- The C assertion `odone == odone2` (compiled out with NDEBUG): during a cross-fade both streams deliver the same
-    number of samples — for every run from a fresh engine. -/
-def Goal_fade_alignment : Prop :=
-  ∀ (mx : Nat) (ops : List (Op Nat)), (run (wcfg pinnedFixF13) { st := init (wcfg pinnedFixF13) mx } ops).nmis = 0
+/-- Fade alignment at a constant ratio (no request during the run after the first): there the engine never lags
+    behind the requested ratio by more than one octave, a call never takes an up-switch followed by a down-switch,
+    and `nmis = 0` is expected to hold (no counterexample in the sampled trajectories); not proved. -/
+def Goal_fade_alignment_constant_ratio : Prop :=
+  ∀ (mx r : Nat) (ops : List (Op Nat)), NoRatio ops →
+    (run wcfg { st := init wcfg mx } ([.ratio r 0] ++ ops)).nmis = 0
 
 end Soxr.Vr.C16
